@@ -43,3 +43,17 @@ PROPERTY_ELEMENT = {
 REQUESTED_SOP_CLASS_MESSAGES = {'NGetRQMessage', 'NSetRQMessage', 'NActionRQMessage', 'NDeleteRQMessage'}
 
 NO_DATASET = 0x0101
+
+# Service-specific status codes (beyond the general DIMSE statuses of PS3.7 Annex C), per response message.
+# PS3.4 Tables B.2-1 (C-STORE), C.4-1 (C-FIND), C.4-2 (C-MOVE), C.4-3 (C-GET), Y.x (instance/frame level retrieve,
+# AA00-AA04 for C-MOVE), K.4 (worklist C-FIND, same codes as C.4-1).  Ranges are inclusive.
+SERVICE_STATUS = {
+    'CStoreRSPMessage': [(0xA700, 0xA7FF), (0xA900, 0xA9FF), (0xC000, 0xCFFF), (0xB000, 0xB000), (0xB007, 0xB007), (0xB006, 0xB006)],
+    'CFindRSPMessage': [(0xA700, 0xA700), (0xA900, 0xA900), (0xC000, 0xCFFF), (0xFE00, 0xFE00), (0xFF00, 0xFF01)],
+    'CGetRSPMessage': [(0xA701, 0xA702), (0xA900, 0xA900), (0xC000, 0xCFFF), (0xFE00, 0xFE00), (0xB000, 0xB000), (0xFF00, 0xFF00),
+                       (0xAA00, 0xAA04)],
+    'CMoveRSPMessage': [(0xA701, 0xA702), (0xA801, 0xA801), (0xA900, 0xA900), (0xC000, 0xCFFF), (0xFE00, 0xFE00), (0xB000, 0xB000),
+                        (0xFF00, 0xFF00), (0xAA00, 0xAA04)],
+}
+# general DIMSE status codes (PS3.7 Annex C) that a service may also register specifically (e.g. 0112H)
+GENERAL_STATUS = [(0x0000, 0x0000), (0x0105, 0x0107), (0x0110, 0x0124), (0x0210, 0x0213)]
